@@ -469,10 +469,12 @@ def judge(part, w):
             viol('C07', 'left-behind', 'Popen._tasks', trig,
                  '%s still owned by the executor at quiescence' % uid)
 
-    part.outcome((scn['name'],
-                  tuple(sorted((u, o['exec'], tuple(o['push']),
-                                tuple(o['final']), o['unsched'])
-                               for u, o in obs.items()))))
+    out = (scn['name'],
+           tuple(sorted((u, o['exec'], tuple(o['push']),
+                         tuple(o['final']), o['unsched'])
+                        for u, o in obs.items())))
+    part.outcome(out)
+    return out
 
 
 # ------------------------------------------------------------------------------
@@ -539,6 +541,7 @@ def _job(i):
                          'sbox.%d' % os.getpid())
     os.makedirs(_sbox, exist_ok=True)
     n = 0
+    checked_det = False
     try:
         for sch, w in rs.explore(lambda p: run_one(scn, p), _bound,
                                  max_exec=scn.get('max_exec')):
@@ -547,7 +550,18 @@ def _job(i):
                          'at preemption bound %d' % (scn['name'], w, _bound))
                 break
             n += 1
-            judge(part, w)
+            n_viol = part.nviol
+            out = judge(part, w)
+            if part.nviol > n_viol and not checked_det:
+                # determinism guard: the recorded schedule must reproduce the
+                # same observation before any failure is trusted
+                checked_det = True
+                sch2, w2 = run_one(scn, list(sch.choices))
+                out2 = judge(report.Part(), w2)
+                if out2 != out or sch2.choices != sch.choices:
+                    raise rs.Divergence('schedule %s of %s does not replay: '
+                                        '%s vs %s' % (sch.choices, scn['name'],
+                                                      out, out2))
     except rs.Divergence as e:
         part.violation('HARNESS#divergence|%s' % scn['name'], repr(e), None)
     part.cover(executions=n, states=n, transitions=n, scenarios=1,
